@@ -877,6 +877,16 @@ def stream_spin(ctx):
 
 # ---------------------------------------------------------------- stream 4b: RichardsonGaudin
 
+def frac_of(g):
+    """exact value of a Python / numpy number or Fraction"""
+    import numpy
+    if isinstance(g, Fraction):
+        return g
+    if isinstance(g, (bool, int, numpy.integer, numpy.bool_)):
+        return Fraction(int(g))
+    return Fraction(float(g))
+
+
 def stream_rg(ctx):
     import numpy
     of = ctx.of
@@ -887,12 +897,23 @@ def stream_rg(ctx):
                'number of pairs ([H, sum_p Z_p] = 0); diagonal values 2*range(n(n+1)/2 + 1)')
     rng = rng_for(ctx.seed, 'c13-rg')
     cases = [(g, n) for n in range(1, budget(ctx.tier, 7, 10)) for g in (0.5, -0.25, 0.0, coupling(rng, 0.0))]
+    # (T) the coupling as an integer type (odd integers: g/2 is not an integer), numpy scalars, Fraction — types the tree
+    # rejects are probed once and excluded
+    typed = []
+    for g in (1, -1, 3, 2, numpy.int64(5), numpy.int32(-3), numpy.float32(0.5), numpy.float64(-0.75), Fraction(1, 2), Fraction(-3, 4), True, 1.0, -0.75):
+        try:
+            RichardsonGaudin(g, 2).qubit_operator
+            typed.append(g)
+        except Exception:  # noqa: BLE001
+            s.count('coupling type rejected by the tree:' + type(g).__name__)
+    cases += [(g, n) for n in range(1, 5) for g in typed]
     model = ctx.driver.run([{'op': 'c13.richardson_gaudin', 'g': to_gq(g), 'n': n} for g, n in cases])
     orc = Oracle(ctx, s)
     for (g, n), mo in zip(cases, model):
-        c = {'g': g, 'n_qubits': n}
+        c = {'g': repr(g), 'g_type': type(g).__name__, 'n_qubits': n}
         s.case(c)
         s.count('n=%d' % n)
+        s.count('g type:' + type(g).__name__)
         try:
             rg = RichardsonGaudin(g, n)
             Q = rg.qubit_operator
@@ -906,7 +927,7 @@ def stream_rg(ctx):
         if mo['qubit_operator'] is None or canon_op_json(jop) != canon_op_json(mo['qubit_operator']):
             s.disagree('RichardsonGaudin.qubit_operator', c, jop, mo['qubit_operator'])
         # Spec: the documented form
-        gf = Fraction(g)
+        gf = frac_of(g)
         doc = {(): (Fraction(n * (n + 1), 2), Fraction(0))}
         for p in range(n):
             doc[((p, 'Z'),)] = (Fraction(-(p + 1)), Fraction(0))
@@ -920,10 +941,37 @@ def stream_rg(ctx):
             s.violate('RichardsonGaudin.qubit_operator differs from the documented Hamiltonian', c,
                       {'first_differences(term, implementation, documented)':
                        [(k, impl.get(k), doc.get(k)) for k in keys if impl.get(k) != doc.get(k)][:4]})
+        if any(numpy.asarray(a_).dtype.kind != 'f' for a_ in (hc, hr1, hr2)):
+            s.violate('RichardsonGaudin coefficient arrays are not floating point (they inherit the type of g)', c,
+                      {'dtypes': [str(numpy.asarray(a_).dtype) for a_ in (hc, hr1, hr2)]})
         if const != 0 or numpy.any(hr2 != 0) or [float(v) for v in hc] != [2.0 * (p + 1) for p in range(n)] \
-                or any(float(hr1[p, q]) != (g if p != q else 0.0) for p in range(n) for q in range(n)):
+                or any(Fraction(float(hr1[p, q])) != (frac_of(g) if p != q else 0) for p in range(n) for q in range(n)):
             s.violate('RichardsonGaudin coefficient arrays differ from hc_p = 2(p+1), hr1 = g (p != q), hr2 = 0', c,
                       {'hc': hc.tolist(), 'hr1': hr1.tolist(), 'hr2': hr2.tolist(), 'constant': const})
+        if n <= 4:
+            # the fermionic parent Hamiltonian (n_body_tensors -> InteractionOperator -> get_fermion_operator, as the repo's
+            # own test builds it) restricted to the paired (seniority-zero) subspace is the documented qubit Hamiltonian
+            try:
+                tens = rg.n_body_tensors
+                one_b, two_b = numpy.asarray(tens[(1, 0)]), numpy.asarray(tens[(1, 1, 0, 0)])
+                if one_b.dtype.kind not in 'fc' or two_b.dtype.kind not in 'fc':
+                    s.violate('RichardsonGaudin.n_body_tensors are not floating point', c, {'dtypes': [str(one_b.dtype), str(two_b.dtype)]})
+                fop = of.get_fermion_operator(of.InteractionOperator(tens[()], one_b, 0.5 * two_b))
+                M = of.get_sparse_operator(fop, 2 * n).toarray()
+                idx = [int(''.join(str(b) * 2 for b in bits), 2) for bits in itertools.product((0, 1), repeat=n)]
+                ref_op = of.QubitOperator()
+                for t_, v_ in doc.items():
+                    ref_op += of.QubitOperator(t_, float(v_[0]))
+                Rm = of.get_sparse_operator(ref_op, n).toarray()
+                s.float_comparisons += len(idx) ** 2
+                s.count('oracle:fermionic form on the paired subspace')
+                if numpy.max(numpy.abs(M[numpy.ix_(idx, idx)] - Rm)) > 1e-9:
+                    s.violate('the fermionic form of RichardsonGaudin (n_body_tensors) restricted to the paired subspace is not the documented Hamiltonian', c,
+                              {'max_difference': float(numpy.max(numpy.abs(M[numpy.ix_(idx, idx)] - Rm)))})
+                if Fraction(float(tens[()])) != 0:
+                    s.violate('RichardsonGaudin constant is not 0', c, {'constant': repr(tens[()])})
+            except Exception as e:  # noqa: BLE001
+                s.violate('the fermionic form of RichardsonGaudin raised', c, repr(e))
         if n <= 5:
             enc = lambda d: [[[[i, {'X': 1, 'Y': 2, 'Z': 3}[a]] for i, a in t], [v[0].numerator, v[0].denominator, v[1].numerator, v[1].denominator]]
                              for t, v in d.items()]
@@ -1910,6 +1958,46 @@ def stream_state_types(ctx):
                             break
                 except Exception as e:  # noqa: BLE001
                     s.violate('a generator accepted this type on a 2 x 2 lattice but raised here', cc, repr(e))
+    # ---- (T) integer-typed couplings: every generator with Python ints (odd values: halves must not be truncated), bools and
+    # numpy integers / float32 / Fraction where the tree accepts them, compared with the float form
+    from fractions import Fraction as Fr
+    import numpy as np_
+    pools = {'int': lambda v: int(v), 'int64': lambda v: np_.int64(v), 'int32': lambda v: np_.int32(v),
+             'float32': lambda v: np_.float32(v), 'Fraction': lambda v: Fr(v), 'float64': lambda v: np_.float64(v)}
+    vals = [(1, 3, -1, 2), (-1, 1, 3, -3), (3, -5, 2, 1), (2, 7, -3, 5)]
+    gens = {
+        'fermi_hubbard': lambda t, u, mu, h, p: of.fermi_hubbard(2, 2, t, u, mu, h, p),
+        'fermi_hubbard(particle_hole_symmetry)': lambda t, u, mu, h, p: of.fermi_hubbard(2, 2, t, u, mu, h, p, False, True),
+        'fermi_hubbard(spinless, particle_hole_symmetry)': lambda t, u, mu, h, p: of.fermi_hubbard(3, 2, t, u, mu, h, p, True, True),
+        'bose_hubbard': lambda t, u, mu, h, p: of.bose_hubbard(2, 3, t, u, mu, h, p),
+        'mean_field_dwave': lambda t, u, mu, h, p: of.mean_field_dwave(2, 2, t, u, mu, p),
+        'FermiHubbardModel': lambda t, u, mu, h, p: of.FermiHubbardModel(
+            HubbardSquareLattice(2, 2, n_dofs=2, periodic=p), tunneling_parameters=[('neighbor', (0, 1), t), ('onsite', (0, 1), u)],
+            interaction_parameters=[('onsite', (0, 0), u), ('neighbor', (0, 1), t)], potential_parameters=[(1, mu)],
+            magnetic_field=h, particle_hole_symmetry=True).hamiltonian(),
+    }
+    for gname, gen in gens.items():
+        for tname, conv in pools.items():
+            try:
+                gen(conv(1), conv(1), conv(1), conv(1), True)
+            except Exception:  # noqa: BLE001
+                s.count('coupling type rejected by the tree:%s:%s' % (gname.split('(')[0], tname))
+                continue
+            for (t, u, mu, h) in vals:
+                for p in (True, False):
+                    c = {'generator': gname, 'coupling_type': tname, 't': t, 'u': u, 'mu': mu, 'h': h, 'periodic': p}
+                    s.case(c)
+                    s.count('oracle:(T) integer couplings')
+                    try:
+                        ref = gen(float(t), float(u), float(mu), float(h), p)
+                        got = gen(conv(t), conv(u), conv(mu), conv(h), p)
+                        if exact_terms(got) != exact_terms(ref):
+                            a_, b_ = exact_terms(got), exact_terms(ref)
+                            keys = sorted(set(a_) | set(b_), key=str)
+                            s.violate('a generator gives a different Hamiltonian for integer-typed couplings than for the same values as floats', c,
+                                      {'first_differences(term, typed, float)': [(k, a_.get(k), b_.get(k)) for k in keys if a_.get(k) != b_.get(k)][:3]})
+                    except Exception as e:  # noqa: BLE001
+                        s.violate('a generator accepted this coupling type for the value 1 but raised here', c, repr(e))
     # ---- Grid helpers (S), containers (T)
     for L, scale in (([3], 1.5), ([2, 3], 2.0), ([3, 2], [[1.0, 0.4], [0.2, 1.5]])):
         dim = len(L)
